@@ -221,7 +221,7 @@ impl Prop for C07 {
         "C07"
     }
     fn rule(&self) -> String {
-        "generated: 1-8 state features; weights in [-10,10] incl. zeros with non-zero sum; vehicle rates zero/raw/factor/offset/combined(depth<=3) with parameters in [-1e3,1e3]; network rates none/edge lookup/edge-pair lookup/combined; aggregation sum or mul; previous state and the state changes of the turn and of the traversal in [-1e6,1e6] incl. zero and negative changes; direct calls of traversal_cost/access_cost/cost_estimate plus EdgeTraversal::forward_traversal with harness models that apply exactly the generated changes. non-trivial = the un-floored total is <= 0 (floor exercised) or at least two non-zero-weight features contribute with opposite signs".to_string()
+        "generated: 1-8 state features; weights in [-10,10] incl. zeros with non-zero sum; vehicle rates zero/raw/factor/offset/combined(depth<=3) with parameters in [-1e3,1e3]; network rates none/edge lookup/edge-pair lookup/combined (nested, depth<=3); one case in 5 scales the weight vector by 1e-6..1e-16 so that positive sums lie far below the floor; aggregation sum or mul; previous state and the state changes of the turn and of the traversal in [-1e6,1e6] incl. zero and negative changes; direct calls of traversal_cost/access_cost/cost_estimate plus EdgeTraversal::forward_traversal with harness models that apply exactly the generated changes. non-trivial = the un-floored total is <= 0 (floor exercised) or at least two non-zero-weight features contribute with opposite signs".to_string()
     }
     fn cases(&self, tier: Tier) -> u32 {
         tier.pick(200_000, 8_000_000)
@@ -253,10 +253,12 @@ impl Prop for C07 {
                     2 => proptest::collection::vec(sur(), N_EDGES).prop_map(NetSpec::Edge),
                     2 => proptest::collection::vec((0u8..N_EDGES as u8, 0u8..N_EDGES as u8, sur()), 0..5).prop_map(NetSpec::Pair),
                 ];
-                let net = prop_oneof![
-                    5 => net_leaf.clone(),
-                    1 => proptest::collection::vec(net_leaf, 1..3).prop_map(NetSpec::Combined),
-                ];
+                // combined network rates may contain combined ones (depth <= 3)
+                let net = net_leaf.prop_recursive(3, 8, 3, |inner| {
+                    prop_oneof![
+                        1 => proptest::collection::vec(inner, 1..3).prop_map(NetSpec::Combined),
+                    ]
+                });
                 let val = || prop_oneof![
                     2 => Just(0.0f64),
                     3 => (-1.0e6f64..1.0e6).prop_map(|v| (v * 4.0).round() / 4.0),
@@ -271,11 +273,16 @@ impl Prop for C07 {
                     proptest::collection::vec(prop_oneof![2 => Just(0.0f64), 1 => val()], n),
                     proptest::collection::vec(val(), n),
                     (0u8..N_EDGES as u8, 0u8..N_EDGES as u8, (0.01f64..100.0), val()),
+                    // the whole weight vector scaled down: positive sums far below the floor
+                    prop_oneof![12 => Just(1.0f64), 1 => Just(1e-6f64), 1 => Just(1e-12f64), 1 => Just(1e-16f64)],
                 )
             })
-            .prop_map(|(mut weights, rates, nets, mul, prev, d_access, d_trav, (edge, prev_edge, lambda, other))| {
+            .prop_map(|(mut weights, rates, nets, mul, prev, d_access, d_trav, (edge, prev_edge, lambda, other), wscale)| {
                 if weights.iter().sum::<f64>() == 0.0 {
                     weights[0] += 1.0;
+                }
+                for w in weights.iter_mut() {
+                    *w *= wscale;
                 }
                 C07Case {
                     weights,
